@@ -140,14 +140,81 @@ pub fn run_tables(env: &Env, rep: &Report) {
     rep.note("tables", "every table over <=3 of the gaps 0..8 with limits from {0.25,0.5,1,2,4}, sorted and reversed insertion, first gap optionally configured twice (same batch before/after, earlier/later batch); probed at gaps 0..10 x 32 distances (0, each limit +-2 ulp, 0.75*limit, 10)".into());
 }
 
+// ---------------------------------------------------------------------------------------------
+// tracker level
+
+use crate::gen::scenes::{history, history_opts, History};
+use crate::props::trkmon::{run_monitored, Flags, MARGIN};
+use proptest::prelude::*;
+
+fn table() -> impl Strategy<Value = Vec<(usize, f32)>> {
+    // limits small enough to cut pairs that still overlap (centre distance of gated pairs is well
+    // below one radii sum), next to generous ones
+    proptest::collection::vec((0usize..7, prop_oneof![3 => 0.01f32..0.15, 2 => 0.1f32..0.5, 1 => Just(1.0f32), 1 => Just(4.0f32)]), 1..4)
+}
+
+/// binding constraints: every continuation must respect the limit for its epoch gap
+pub fn check_binding(h: &History) -> CaseResult {
+    let st = crate::props::decide::run_decisions(h)?;
+    Ok(CaseOk::new(st.constraint_removed_pairs > 0)
+        .label(h.cfg.kind.name())
+        .label_if(st.constraint_removed_pairs > 0, "constraint_removed_gated_pair")
+        .label_if(st.band_calls > 0, "band_call")
+        .label_if(st.positional_attachments + st.visual_attachments > 0, "has_continuations"))
+}
+
+/// constraints that no pair violates (limits 1e6) = no constraints, bit-equal
+pub fn check_nonbinding(h: &History) -> CaseResult {
+    let flags = Flags { c01: false, c03: false, c13: false, margins: true };
+    let mut free = h.clone();
+    free.cfg.constraints = None;
+    let mut loose = h.clone();
+    loose.cfg.constraints = Some(h.cfg.constraints.clone().unwrap_or_default().into_iter().map(|(g, _)| (g, 1e6f32)).collect());
+    let a = run_monitored(&free, flags)?;
+    let b = run_monitored(&loose, flags)?;
+    ensure!(a.records.len() == b.records.len(), "constraints-nonbinding-calls", "number of calls differs");
+    let cut = (0..a.records.len()).find(|i| a.call_margins.get(*i).map(|x| x.1).unwrap_or(0.0) < MARGIN || b.call_margins.get(*i).map(|x| x.1).unwrap_or(0.0) < MARGIN).unwrap_or(a.records.len());
+    let ra: Vec<Vec<crate::trk::Rec>> = a.records[..cut].iter().map(|x| x.1.clone()).collect();
+    let rb: Vec<Vec<crate::trk::Rec>> = b.records[..cut].iter().map(|x| x.1.clone()).collect();
+    crate::props::c04::same_up_to_ids(&ra, &rb, "unconstrained vs non-binding constraints").map_err(|f| Fail::new(format!("constraints-nonbinding-{}", f.signature), f.msg))?;
+    let conts = ra.iter().flatten().filter(|r| r.length > 1).count();
+    Ok(CaseOk::new(conts > 0 && cut > 2).label(h.cfg.kind.name()).label_if(cut < a.records.len(), "cut_at_fragile_call"))
+}
+
+pub fn run_trackers(env: &Env, rep: &Report) {
+    use crate::props::c01::{iso_check, KINDS};
+    let pool = IsoPool::new(&env.prop, "binding", std::time::Duration::from_secs(120));
+    let n = env.tier.pick(400, 10_000);
+    for kind in KINDS {
+        let strat = move || (history(kind, false, 40), table()).prop_map(|(mut h, t)| {
+            h.cfg.constraints = Some(t);
+            h
+        });
+        par_generated(rep, "binding", strat, n, workers(), iso_check(&pool, rep));
+    }
+    let pool2 = IsoPool::new(&env.prop, "nonbinding", std::time::Duration::from_secs(120));
+    let n = env.tier.pick(250, 6_000);
+    for kind in KINDS {
+        let strat = move || (history_opts(kind, false, 40, false), table()).prop_map(|(mut h, t)| {
+            h.cfg.constraints = Some(t);
+            h
+        });
+        par_generated(rep, "nonbinding", strat, n, workers(), iso_check(&pool2, rep));
+    }
+}
+
 pub fn run(env: &Env, rep: &Report) {
-    rep.set_rule("constraint tables enumerated exhaustively over <=3 configured gaps in 0..8 x limit grid, duplicates and insertion orders; every (gap 0..10, distance probe) pair compared with the reference lookup 'limit of the smallest configured gap >= d, first insertion wins'. Non-trivial: a probe gap strictly between two configured gaps; distinct = distinct serialized table");
+    rep.set_rule("constraint tables enumerated exhaustively over <=3 configured gaps in 0..8 x limit grid, duplicates and insertion orders; every (gap 0..10, distance probe) pair compared with the reference lookup 'limit of the smallest configured gap >= d, first insertion wins'. Tracker level: histories with fast-moving and re-appearing objects under random constraint tables for all four trackers. Non-trivial: a probe gap strictly between two configured gaps (tables); a history where the constraints remove a pair that the positional gate would have accepted (binding); a compared prefix with continuations (nonbinding); distinct = distinct serialized case");
     run_tables(env, rep);
+    rep.assume("tracker level: 'binding' re-derives admissibility of every (detection, track) pair in f64 (epoch gap, centre distance / sqrt((r1+r2)^2 + EPS) <= limit of the smallest configured gap >= d) and requires every continuation to be an admitted, gated pair and the positional continuations to be optimal among admitted pairs; 'nonbinding' compares the run without constraints with the run under the same gaps and limits 1e6, bit-equal up to ids, cut at calls with a decision margin below 1e-4");
+    run_trackers(env, rep);
 }
 
 pub fn replay(sub: &str, case: Value) -> Option<CaseResult> {
     match sub {
         "tables" => Some(replay_case(case, check_table, sub)),
+        "binding" => Some(replay_case(case, check_binding, sub)),
+        "nonbinding" => Some(replay_case(case, check_nonbinding, sub)),
         _ => None,
     }
 }
